@@ -552,7 +552,14 @@ constexpr MagRepresentationOrError<T> get_value_result(Magnitude<BPs...>) {
         return {MagRepresentationOutcome::ERR_CANNOT_FIT};
     }
 
-    return {MagRepresentationOutcome::OK, static_cast<T>(widened_result.value)};
+    // Every Magnitude is strictly positive.  If the result is zero, it means the value was too small
+    // to represent in `T` (it "underflowed"), which is just as unrepresentable as a too-big value.
+    const auto result = static_cast<T>(widened_result.value);
+    if (result == static_cast<T>(0)) {
+        return {MagRepresentationOutcome::ERR_CANNOT_FIT};
+    }
+
+    return {MagRepresentationOutcome::OK, result};
 }
 
 // This simple overload avoids edge cases with creating and passing zero-sized arrays.
